@@ -89,20 +89,37 @@ def r3(ctx, rep):
     f = syn.fn("anchor::extract_atomic", crate="prqlc")
     import alpha
     import re
-    A0, A1 = alpha.Inliner(f, max_inline=0), alpha.Inliner(f, max_inline=1)
-    ok = False
-    for n in walk(f["body"]):
-        # (closure parameters numbered, the limiting view inlined one level: local names are free)
-        if n.get("k") != "if":
-            continue
-        m = re.fullmatch(r"(\w+)\.iter\(\)\.any\(\|_c0\| !(\w+)\.contains\(_c0\)\)", A0.show(n["c"]))
-        if m:
-            out = m.group(2)
-            rets = [A1.show(r.get("e")) for r in walk(n["t"]) if r.get("k") == "return"]
-            # the limiting view is a Select of exactly the requested output (the same variable the test looked at)
-            ok = len(rets) == 1 and re.fullmatch(r"anchor_split\(ctx, \w+, vec!\(SqlTransform::Super\(Transform::Select\(" + out + r"\)\)\)\)", rets[0]) is not None
+    import boolfn
+    A1 = alpha.Inliner(f, max_inline=1)
+    A = alpha.Inliner(f)
+    # the value of the function as a decision on "every selected column is part of the requested output" - an `any(!contains)` with an early return,
+    # an `all(contains)` with if / else, a named boolean .. - evaluated for both answers
+    seen = {}
+
+    def atom_for(all_selected):
+        def atom(t):
+            u = t.replace(" ", "").replace("(", "").replace(")", "")
+            m = re.fullmatch(r"(\w+)\.iter\.(any|all)\|(\w+)\|(!?)(\w+)\.contains\3", u)
+            if not m:
+                return None
+            seen["out"] = m.group(5)
+            if m.group(2) == "any" and m.group(4) == "!":
+                return not all_selected
+            if m.group(2) == "all" and m.group(4) == "":
+                return all_selected
+            return None
+        return atom
+    ok = unchanged = False
+    try:
+        leaf_all = boolfn.leaf(f["body"], atom_for(True), A)
+        leaf_not = boolfn.leaf(f["body"], atom_for(False), A)
+        out = seen.get("out")
+        unchanged = show(leaf_all) == "atomic"
+        ok = out is not None and re.fullmatch(r"anchor_split\(ctx, \w+, vec!\(SqlTransform::Super\(Transform::Select\(" + out + r"\)\)\)\)", A1.show(leaf_not)) is not None
+    except boolfn.Unknown:
+        pass
     rep.check(ok, "limiting-select", "when the atomic SELECT contains a column that is not in the requested output, a second SELECT of exactly the output must follow", file=f["file"], line=f["l"], fn=f["path"])
-    rep.check(show(tail_expr(f["body"])) == "atomic", "otherwise-unchanged", "otherwise the atomic pipeline is returned as is", file=f["file"], line=f["l"], fn=f["path"])
+    rep.check(unchanged, "otherwise-unchanged", "otherwise the atomic pipeline is returned as is", file=f["file"], line=f["l"], fn=f["path"])
 
 
 def r4(ctx, rep):
